@@ -85,6 +85,7 @@ type fakeNode struct {
 	chainIDMismatch bool
 	decoys          []Log
 	lastFinAnswer   uint64
+	finLog          []string // answers to the finalized-header queries: f (failed) | n (null) | h:<hex>
 	subs            []*nodeSub
 	subCount        int
 	emitted         []Log  // every non-sentinel log pushed on a live subscription, in order
@@ -185,12 +186,15 @@ func (a *ethAPI) GetBlockByNumber(ctx context.Context, number string, full bool)
 	}
 	if a.n.finFails > 0 {
 		a.n.finFails--
+		a.n.finLog = append(a.n.finLog, "f")
 		return nil, errors.New("scripted failure")
 	}
 	if a.n.finNotFound > 0 {
 		a.n.finNotFound--
+		a.n.finLog = append(a.n.finLog, "n")
 		return nil, nil // JSON null: the node has not seen finality
 	}
+	a.n.finLog = append(a.n.finLog, fmt.Sprintf("h:%x", truth))
 	return hdr(truth), nil
 }
 
